@@ -281,6 +281,7 @@ fn voiceset_part(rep: &Report) {
     let a: Voice = load_voice_bytes(&cfg.bytes()).expect("generated voice");
     // one-field differences (the property's list), built on the public Voice fields
     let mut diffs: Vec<(&str, Voice)> = Vec::new();
+    let mut extra_pairs: Vec<(Voice, Voice)> = Vec::new();
     let mut v = a.clone();
     v.metadata.sampling_frequency += 1;
     diffs.push(("sampling rate", v));
@@ -311,6 +312,42 @@ fn voiceset_part(rep: &Report) {
         let mut v = a.clone();
         v.stream_models[si].metadata.option.push("ALPHA=0.1".into());
         diffs.push(("option", v));
+    }
+    // two fields of one stream at once, incl. the pairs whose PDF width stays the same (vector length x windows constant)
+    for si in 0..a.stream_models.len() {
+        let muts: Vec<(&str, Box<dyn Fn(&mut Voice)>)> = vec![
+            ("vector length", Box::new(move |v: &mut Voice| v.stream_models[si].metadata.vector_length += 1)),
+            ("windows count", Box::new(move |v: &mut Voice| v.stream_models[si].metadata.num_windows += 1)),
+            ("MSD flag", Box::new(move |v: &mut Voice| v.stream_models[si].metadata.is_msd = !v.stream_models[si].metadata.is_msd)),
+            ("GV flag", Box::new(move |v: &mut Voice| v.stream_models[si].metadata.use_gv = !v.stream_models[si].metadata.use_gv)),
+            ("option", Box::new(move |v: &mut Voice| v.stream_models[si].metadata.option.push("ALPHA=0.1".into()))),
+        ];
+        for i in 0..muts.len() {
+            for j in i + 1..muts.len() {
+                let mut v = a.clone();
+                (muts[i].1)(&mut v);
+                (muts[j].1)(&mut v);
+                diffs.push(("two fields of one stream", v));
+            }
+        }
+        let (vl, nw) = (a.stream_models[si].metadata.vector_length, a.stream_models[si].metadata.num_windows);
+        if nw > 1 {
+            for gv_off in [false, true] {
+                let mut v = a.clone();
+                v.stream_models[si].metadata.vector_length = vl * nw;
+                v.stream_models[si].metadata.num_windows = 1;
+                if gv_off {
+                    v.stream_models[si].metadata.use_gv = false;
+                }
+                diffs.push(("vector length x windows with the same product", v.clone()));
+                if gv_off {
+                    // and against a base that has GV off too (then only the two swapped fields differ)
+                    let mut base2 = a.clone();
+                    base2.stream_models[si].metadata.use_gv = false;
+                    extra_pairs.push((base2, v));
+                }
+            }
+        }
     }
     // the same differences produced by real files
     for (name, c2) in [
@@ -345,6 +382,12 @@ fn voiceset_part(rep: &Report) {
     check(vec![a.clone(), a.clone()], true, "[A, A]".into());
     check(vec![a.clone(), same.clone()], true, "[A, A'] differing only in trees/PDFs".into());
     check(vec![a.clone(), same.clone(), a.clone()], true, "[A, A', A]".into());
+    for (x, y) in extra_pairs {
+        let (x, y) = (Arc::new(x), Arc::new(y));
+        check(vec![x.clone(), y.clone()], false, "[B, B'] without GV, vector length x windows swapped with the same product".into());
+        check(vec![y.clone(), x.clone()], false, "[B', B] without GV, vector length x windows swapped with the same product".into());
+        check(vec![x.clone(), x.clone(), y.clone()], false, "[B, B, B'] without GV, vector length x windows swapped with the same product".into());
+    }
     for (name, d) in diffs {
         let d = Arc::new(d);
         check(vec![a.clone(), d.clone()], false, format!("[A, A'({})]", name));
@@ -369,7 +412,7 @@ pub fn run(tier: Tier) -> i32 {
     let rep: &'static Report = Box::leak(Box::new(Report::new("C19", tier, "model_checking")));
     let monitor = Arc::new(HangMonitor::start(rep, "C19 weight history"));
     let depth: u8 = tier.pick(2, 3);
-    rep.set_rule("HIST (stateright BFS): all histories over {set_duration/set_parameter(i)/set_gv(i) with weight vectors from {5 valid incl. vertices and (1.5,-.5); invalid: wrong lengths, sum off by 1e-6 and 0.1, NaN, (inf,-inf), large magnitudes, empty}; load_model of the condition in use with 1, 2 or 3 voices (equal weights of the new count must then be in force)} to the depth bound on real engines starting with 2 and 3 voices, getters and synthesis (vs a fresh engine given only the reference's effective weights) after every call; states merged by (depth, Debug rendering of the real InterporationWeight); plus SCOPE: VoiceSet::new on [], and on every list of 2-4 voices where one voice (in every position) or an identical pair differs in exactly one metadata field (in every position) or in none; non-trivial = every state after at least one update");
+    rep.set_rule("HIST (stateright BFS): all histories over {set_duration/set_parameter(i)/set_gv(i) with weight vectors from {5 valid incl. vertices and (1.5,-.5); invalid: wrong lengths, sum off by 1e-6 and 0.1, NaN, (inf,-inf), large magnitudes, empty}; load_model of the condition in use with 1, 2 or 3 voices (equal weights of the new count must then be in force)} to the depth bound on real engines starting with 2 and 3 voices, getters and synthesis (vs a fresh engine given only the reference's effective weights) after every call; states merged by (depth, Debug rendering of the real InterporationWeight); plus SCOPE: VoiceSet::new on [], and on every list of 2-4 voices where one voice (in every position) or an identical pair differs in exactly one metadata field (in every position), in two fields of one stream (incl. vector length x windows with the same product, with and without GV) or in none; non-trivial = every state after at least one update");
     rep.assume("weight sums strictly between 1e-15 and 1e-6 away from 1 are unspecified by the property and not in the alphabet");
     voiceset_part(rep);
     let corpus = labels::corpus();
